@@ -133,6 +133,59 @@ Definition chk (c : graph * nat * nat * nat * graph * graph * list nat * bool) :
     ctx.coverage["primitive_tie"] = stats
 
 
+# ------------------------------------------------------------------ tie D: the verified orphan-transpose pass
+def tie_orphan_pass(ctx, n_cases):
+    import onnx_ir as ir
+    from jax2onnx.converter import ir_optimizations as opt
+    rng = ctx.rng
+    rows = []
+    removed_total = 0
+    for c in range(n_cases):
+        vals = [ir.val(f"in_{i}", ir.DataType.FLOAT, (2, 2)) for i in range(rng.randint(1, 2))]
+        inputs = list(vals)
+        nodes = []
+        for k in range(rng.randint(2, 8)):
+            out = ir.val(f"v{k}", ir.DataType.FLOAT, (2, 2))
+            kind = rng.random()
+            if kind < 0.55:
+                n = ir.Node("", "Transpose", [rng.choice(vals)], outputs=[out], name=f"n{k}",
+                            attributes=[ir.Attr("perm", ir.AttributeType.INTS, [1, 0])])
+            elif kind < 0.8:
+                n = ir.Node("", "Relu", [rng.choice(vals)], outputs=[out], name=f"n{k}")
+            else:
+                cap = rng.choice(vals)
+                bo = ir.val(f"b{k}", ir.DataType.FLOAT, (2, 2))
+                body = ir.Graph([], [bo], nodes=[ir.Node("", "Neg", [cap], outputs=[bo], name=f"bn{k}")], name=f"g{k}")
+                body2 = ir.Graph([], [ir.val(f"c{k}", ir.DataType.FLOAT, (2, 2))], nodes=[], name=f"h{k}")
+                cond = ir.val(f"c{k}_", ir.DataType.BOOL, (), const_value=ir.tensor(np.asarray(True)))
+                n = ir.Node("", "If", [cond], outputs=[out], name=f"n{k}",
+                            attributes=[ir.Attr("then_branch", ir.AttributeType.GRAPH, body)])
+            nodes.append(n)
+            vals.append(out)
+        produced = [n.outputs[0] for n in nodes]
+        outs = rng.sample(produced, rng.randint(1, min(2, len(produced))))
+        g = ir.Graph(inputs, outs, nodes=nodes, name="g", opset_imports={"": 23})
+        table = {}
+
+        def intern(name):
+            return table.setdefault(name, len(table))
+        before = _dump(ir, g, intern)
+        opt.remove_orphan_transposes_ir(g)
+        after = _dump(ir, g, intern)
+        removed_total += len(before[0]) - len(after[0])
+        rows.append((before, after))
+    txt = common.CASES_HEADER + "From J2O Require Import Graph OrphanPass.\nClose Scope Z_scope.\n"
+    txt += """Definition leqb (a b : list nat) := list_eqb Nat.eqb a b.
+Definition node_eqb (a b : node) := String.eqb (n_op a) (n_op b) && leqb (n_ins a) (n_ins b) && leqb (n_caps a) (n_caps b) && leqb (n_outs a) (n_outs b).
+Definition chk (c : graph * graph) : bool := let g' := orphan_pass 30 (fst c) in list_eqb node_eqb (g_nodes g') (g_nodes (snd c)) && leqb (g_outputs g') (g_outputs (snd c)).
+"""
+    txt += "Definition cs := [\n" + ";\n".join(f"({_coq_graph(*b)}, {_coq_graph(*a)})" for b, a in rows) + "].\nEval vm_compute in bad_idx_ chk 0 cs.\n"
+    ok, out = common.coq_eval_file(ctx, "c02_orphan", txt)
+    bad = common.coq_bad_indices(out) if ok else None
+    ctx.oblige(f"tie:OrphanPass.v orphan_pass == remove_orphan_transposes_ir ({n_cases} random graphs, {removed_total} nodes removed)", bad == [], "tie",
+               out[-1000:] if bad is None else f"differs on cases {bad[:5]}: {[rows[i][0] for i in bad[:2]]}")
+
+
 # ------------------------------------------------------------------ tie D: the verified cast pass
 def tie_cast_pass(ctx):
     """the REAL remove_redundant_casts_ir vs the Coq model cast_pass (theories/CastPass.v) on the cast family of the
@@ -245,6 +298,7 @@ def run(ctx):
     common.build_props(ctx, "C02", ["GenCast", "GenOpt", "LibTables"])
     tie_primitives(ctx, 250 if ctx.tier == "quick" else 1500)
     tie_cast_pass(ctx)
+    tie_orphan_pass(ctx, 200 if ctx.tier == "quick" else 1500)
     items, res = enumerate_graphs(ctx)
     import collections
     st = collections.Counter(r["status"] for r in res)
